@@ -138,7 +138,7 @@ func (h *harness) merge(outs []*outcome) {
 
 type c12combo struct {
 	ci    int    // content index of the Put under test (id 1)
-	start string // empty | other | present | trimmed | shorter | samesize | longer
+	start string // empty | other | present | shared | trimmed | shorter | samesize | longer
 	src   string // "" | e<o> | s<o> | c<o> | E | k
 	now   string
 }
@@ -198,7 +198,17 @@ func (c c12combo) damaged() bool {
 
 const lookupProcs = "b1;f1;g1;b2;f2"
 
-func c12combos() []c12combo {
+// lookups lists the lookups run (in a fresh process) after the Put under test.
+func (c c12combo) lookups() string {
+	if c.start == "shared" {
+		return lookupProcs + ";b3;f3"
+	}
+	return lookupProcs
+}
+
+// full = false (quick tier): the start "shared" is combined with the first six source behaviours only (none, E, k
+// and the three kinds at offset 0) — its output is valid, so the second pass of the source is normally never read.
+func c12combos(full bool) []c12combo {
 	var out []c12combo
 	for _, ci := range []int{0, 1, 2, 3, 4, 5} {
 		size := len(content(ci))
@@ -213,11 +223,14 @@ func c12combos() []c12combo {
 				srcs = append(srcs, fmt.Sprintf("%s%d", k, o))
 			}
 		}
-		for _, st := range []string{"empty", "other", "present", "trimmed", "shorter", "samesize", "longer"} {
+		for _, st := range []string{"empty", "other", "present", "shared", "trimmed", "shorter", "samesize", "longer"} {
 			if size == 0 && (st == "shorter" || st == "samesize") {
 				continue
 			}
 			for i, s := range srcs {
+				if st == "shared" && !full && i >= 6 {
+					continue
+				}
 				now := nowFresh
 				if (i+ci+len(st))%3 == 0 {
 					now = nowStale
@@ -282,6 +295,8 @@ func (w *worker) prepare(c c12combo) error {
 			oc = 3
 		}
 		setup += fmt.Sprintf(";p1,%d", oc)
+	case "shared": // ANOTHER action id (id3) already holds the very content that is about to be stored under id1
+		setup += fmt.Sprintf(";p3,%d", c.ci)
 	default:
 		setup += fmt.Sprintf(";p1,%d", c.ci)
 	}
@@ -318,14 +333,26 @@ func (w *worker) prepare(c c12combo) error {
 }
 
 // oracleC12 checks the statement of C12 on the directory with the unmodified package.
-func oracleC12(o *outcome, dir string, c c12combo) {
+//
+// Start "shared": id3 was stored with the content the Put under test offers for id1, so the two share one
+// (valid, complete) output file.  id3 is an entry of another action; a failed Put of id1 must leave it
+// readable.  This is asserted whenever the Put suffers at most ONE misbehaviour — either its source
+// misbehaves or one file operation is hit, not both: with both (for instance the stat of the existing
+// output fails AND the source yields different bytes on its second pass) the code at HEAD rewrites the shared
+// output in place from the bad source and then truncates it; that history is reported as an observation,
+// not as a violation (DESIGN §6.4 reads "unrelated" as "another output").
+func oracleC12(o *outcome, dir string, c c12combo, fault string) {
 	o.oracle["C12"]++
 	cc, err := cache.Open(dir)
 	if err != nil {
 		o.obs = append(o.obs, "oracle: cache.Open: "+err.Error())
 		return
 	}
-	for _, id := range []int{1, 2} {
+	ids := []int{1, 2}
+	if c.start == "shared" {
+		ids = append(ids, 3)
+	}
+	for _, id := range ids {
 		data, e, err := cc.GetBytes(actionID(id))
 		if err == nil {
 			if sha256.Sum256(data) != [32]byte(e.OutputID) {
@@ -333,7 +360,7 @@ func oracleC12(o *outcome, dir string, c c12combo) {
 			}
 		}
 		file, fe, ferr := cc.GetFile(actionID(id))
-		if ferr == nil && (!c.damaged() || id == 2) {
+		if ferr == nil && (!c.damaged() || id != 1) {
 			fd, rerr := os.ReadFile(file)
 			if rerr != nil || int64(len(fd)) != fe.Size || sha256.Sum256(fd) != [32]byte(fe.OutputID) {
 				o.violation = append(o.violation, [4]string{"C12", o.caseStr, fmt.Sprintf("GetFile(id%d) names a file that does not hold the bytes of the reported OutputID/size (len %d, size %d)", id, len(fd), fe.Size), "getfile-content"})
@@ -343,6 +370,16 @@ func oracleC12(o *outcome, dir string, c c12combo) {
 			want := content(c.unrelated())
 			if err != nil || !bytes.Equal(data, want) || ferr != nil {
 				o.violation = append(o.violation, [4]string{"C12", o.caseStr, "the unrelated entry id2 (other output) is no longer readable after the failed Put", "unrelated-unreadable"})
+			}
+		}
+		if id == 3 {
+			want := content(c.ci)
+			if err != nil || !bytes.Equal(data, want) || ferr != nil {
+				if c.src != "" && fault != "" {
+					o.dist["c12:observation:shared-output-lost-under-source-and-file-fault"]++
+				} else {
+					o.violation = append(o.violation, [4]string{"C12", o.caseStr, "the entry id3 of another action (same content as the Put under test, stored and valid beforehand) is no longer readable after the Put of id1", "shared-output-unreadable"})
+				}
 			}
 		}
 	}
@@ -355,16 +392,16 @@ func (w *worker) evalC12(c c12combo, fault string, s0 []fileState, t *trace) *ou
 	if d, ans := w.checkReplay(c.now, s0, c.putOp(), t, s1); d != "" {
 		o.disagree = append(o.disagree, [3]string{o.caseStr, d + ": final " + trunc(summaryOf(s1), 600) + " ; trace " + describeTrace(t), trunc(ans, 1200)})
 	}
-	tl, err := w.runImpl(lookupProcs, "1", "", c.now)
+	tl, err := w.runImpl(c.lookups(), "1", "", c.now)
 	if err != nil {
 		o.disagree = append(o.disagree, [3]string{o.caseStr, "lookup run: " + err.Error(), ""})
 		return o
 	}
 	s2 := scanDir(w.dir)
-	if d, ans := w.checkReplay(c.now, s1, lookupProcs, tl, s2); d != "" {
+	if d, ans := w.checkReplay(c.now, s1, c.lookups(), tl, s2); d != "" {
 		o.disagree = append(o.disagree, [3]string{o.caseStr + " (lookups)", d + ": final " + trunc(summaryOf(s2), 600) + " ; trace " + describeTrace(tl), trunc(ans, 1200)})
 	}
-	oracleC12(o, w.dir, c)
+	oracleC12(o, w.dir, c, fault)
 	nops := len(osOpsOf(t))
 	o.nontriv = nops > 0 && (fault != "" || c.src != "")
 	o.dist["c12:start="+c.start]++
@@ -418,7 +455,7 @@ func (h *harness) selectFaults(c c12combo, k int, faults []string) []string {
 }
 
 func (h *harness) runC12() {
-	combos := c12combos()
+	combos := c12combos(h.tier == "thorough" || h.search)
 	outs := make([][]*outcome, len(combos))
 	err := h.parallel(len(combos), func(w *worker, i int) {
 		c := combos[i]
@@ -483,6 +520,13 @@ func (h *harness) replayOne(s string) {
 	}
 	if strings.HasPrefix(s, "c11:") {
 		h.replayC11(s)
+		return
+	}
+	if cfg, ok := parseShared(s); ok {
+		// only the interleaving of real goroutines varies: repeat until the violation shows again
+		for k := 0; k < 5 && len(h.res.Violations) == 0; k++ {
+			h.runShared([]sharedCfg{cfg})
+		}
 		return
 	}
 	h.res.Observations = append(h.res.Observations, "unrecognised replay case "+s)
